@@ -453,7 +453,9 @@ impl<'a> Generator<'a> {
             format!("10.{}.{}.{}", rng.range(0, 255), rng.range(0, 255), rng.range(1, 254)),
             format!("192.168.{}.{}", rng.range(0, 255), rng.range(1, 254)),
         ];
-        ips.push(match rng.below(3) {
+        ips.push(match rng.below(4) {
+            // an IPv4-mapped IPv6 address is an IPv6 address: what the node reports is what is offered
+            3 => format!("::ffff:{:x}:{:x}", rng.range(0x0a00, 0x0aff), rng.range(1, 0xfffe)),
             0 => format!("fd00::{:x}:{:x}", rng.range(1, 0xffff), rng.range(1, 0xffff)),
             1 => format!("2001:db8:0:0:0:0:{:x}:{:x}", rng.range(1, 0xffff), rng.range(1, 0xffff)),
             _ => format!("172.{}.{}.{}", rng.range(16, 31), rng.range(0, 255), rng.range(1, 254)),
